@@ -95,6 +95,72 @@ theorem C19_time_seq (cur : W) : runSeq P cur .time = (cur, some cur) := by
   simp [runSeq, Sys.init, run, step, stepThread, P, Lamport.progs, Progs.of, Lamport.time,
     execInstr, Frame.set, Frame.get]
 
+/-! ### Sequential algebra of `Witness` (the clock as a join: order-independent, idempotent) -/
+
+/-- one more than the largest witnessed value (0 for none), as a natural number -/
+def supSucc : List W → Nat
+  | [] => 0
+  | v :: vs => max (v.toNat + 1) (supSucc vs)
+
+theorem witnessSeq_toNat (cur v : W) (hv : v ≠ BitVec.allOnes 64) :
+    (witnessSeq cur v).toNat = max cur.toNat (v.toNat + 1) := by
+  rw [witnessSeq_eq]
+  have : v.toNat ≠ 2 ^ 64 - 1 := by
+    intro h; apply hv; apply BitVec.eq_of_toNat_eq; simp [h]
+  by_cases h : v < cur <;> simp only [h, ↓reduceIte] <;> bv_omega
+
+/-- **Closed form for any sequence of witnesses**: after witnessing `vs` (none of them 2^64−1) in
+this order the clock is the maximum of its old value and every witnessed value plus one. -/
+theorem C19_witness_all (cur : W) (vs : List W) (h : ∀ v ∈ vs, v ≠ BitVec.allOnes 64) :
+    (vs.foldl witnessSeq cur).toNat = max cur.toNat (supSucc vs) := by
+  induction vs generalizing cur with
+  | nil => simp [supSucc]
+  | cons v vs ih =>
+    have hv := h v (by simp)
+    rw [List.foldl_cons, ih _ (fun w hw => h w (by simp [hw])), witnessSeq_toNat cur v hv]
+    simp only [supSucc]; omega
+
+theorem supSucc_perm {vs ws : List W} (p : vs.Perm ws) : supSucc vs = supSucc ws := by
+  induction p with
+  | nil => rfl
+  | cons x _ ih => simp only [supSucc, ih]
+  | swap x y l => simp only [supSucc]; omega
+  | trans _ _ ih1 ih2 => exact ih1.trans ih2
+
+/-- **Order independence**: witnessing the same values in any order leaves the same clock. -/
+theorem C19_witness_order_independent (cur : W) (vs ws : List W) (p : vs.Perm ws)
+    (h : ∀ v ∈ vs, v ≠ BitVec.allOnes 64) : vs.foldl witnessSeq cur = ws.foldl witnessSeq cur := by
+  apply BitVec.eq_of_toNat_eq
+  rw [C19_witness_all cur vs h, C19_witness_all cur ws (fun v hv => h v (p.mem_iff.mpr hv)), supSucc_perm p]
+
+theorem le_supSucc (vs : List W) : ∀ v ∈ vs, v.toNat + 1 ≤ supSucc vs := by
+  induction vs with
+  | nil => intro v hv; cases hv
+  | cons w ws ih =>
+    intro v hv
+    simp only [supSucc]
+    rcases List.mem_cons.mp hv with rfl | hw
+    · omega
+    · have := ih v hw; omega
+
+/-- **Every witnessed value is strictly below the final clock, and the clock did not go back.** -/
+theorem C19_witness_all_above (cur : W) (vs : List W) (h : ∀ v ∈ vs, v ≠ BitVec.allOnes 64) :
+    cur ≤ vs.foldl witnessSeq cur ∧ ∀ v ∈ vs, v < vs.foldl witnessSeq cur := by
+  have hc := C19_witness_all cur vs h
+  have hs := le_supSucc vs
+  constructor
+  · rw [BitVec.le_def]; omega
+  · intro v hv; have := hs v hv; rw [BitVec.lt_def]; omega
+
+/-- **Idempotence**: witnessing a value a second time changes nothing. -/
+theorem C19_witness_idempotent (cur v : W) (hv : v ≠ BitVec.allOnes 64) :
+    witnessSeq (witnessSeq cur v) v = witnessSeq cur v := by
+  apply BitVec.eq_of_toNat_eq
+  rw [witnessSeq_toNat _ v hv, witnessSeq_toNat cur v hv]; omega
+
+example : [9#64, 3#64, 7#64].foldl witnessSeq 5#64 = 10#64 ∧ [7#64, 9#64, 3#64].foldl witnessSeq 5#64 = 10#64 := by decide
+
+
 /-- **Negation witness (recorded finding).** Witnessing 2^64−1 wraps the clock to 0:
 it moves backwards, and no 64-bit clock can be strictly greater than that value. -/
 theorem C19_witness_max_wraps : witnessSeq 42#64 (BitVec.allOnes 64) = 0#64 := by decide
